@@ -10,7 +10,7 @@ operations of every collective API call, following dispatchers/*.c and drivers/n
     sequence of collectives; corollaries for get, wait_all/mput/mget, puts that never reach the
     numrecs Allreduce (fixed-size variables), calls without per-rank arguments, metadata calls;
   * C08_collective_match_refuted (witness = F4) and further refutation witnesses (mixed variable
-    kinds, varn scalar path, fill_var_rec, _enddef / metadata under romio_no_indep_rw, del_att);
+    kinds, varn scalar path, fill_var_rec, _enddef / metadata under romio_no_indep_rw);
   * C08_errors_stay_local_partial / _refuted (wait_all with an invalid request id elsewhere);
   * C08_safe_mode_uniform_partial / _refuted (fill_var_rec keeps its own error).
 TIE (i) translator tr_collsites (above); (ii) correspondence: harness/c08_trace.c (PMPI
@@ -280,7 +280,7 @@ META = {
     'put_att': dict(ok=(0, 0, 0, ('units', 0, 2, 4, 'wxyz')), diff=(0, 0, 0, ('units', 0, 2, 4, 'WXYZ')),
                     big=(0, 0, 'NC_ENOTINDEFINE', ('units', 0, 2, 9, 'wxyzwxyzw')), badname=(0, 'NC_EBADNAME', 0, ('', 0, 2, 4, 'wxyz')),
                     N=(0, 'NC_ENOTVAR', 0, ('units', 99, 2, 4, 'wxyz')), new=(0, 0, 'NC_ENOTINDEFINE', ('fresh', 0, 2, 4, 'wxyz'))),
-    'del_att': dict(ok=(0, 0, 0, ('units', 0)), notatt=(0, 0, 'NC_ENOTATT', ('nosuch', 0)), N=('NC_ENOTVAR', 0, 0, ('units', 99)),
+    'del_att': dict(ok=(0, 0, 0, ('units', 0)), notatt=(0, 0, 'NC_ENOTATT', ('nosuch', 0)), N=(0, 'NC_ENOTVAR', 0, ('units', 99)),
                     diff=(0, 0, 0, ('title', -1))),
     'copy_att': dict(ok=(0, 0, 0, ('units', (0, 5))), diff=(0, 0, 0, ('units', (0, 1))), notatt=(0, 0, 'NC_ENOTATT', ('nosuch', (0, 5))),
                      N=(0, 'NC_ENOTVAR', 0, ('units', (99, 5)))),
@@ -598,7 +598,9 @@ def key_of(c, absl, what):
     cfgs = ''.join([':safe-mode' if c.safe else '', ':romio_no_indep_rw' if (c.hcoll and not isdata and c.api not in ('wait_all', 'fill_var_rec')) else ''])
     valid = sorted(set(a.label for a in absl if a.valid))
     bad = sorted(set(a.label for a in absl if not a.valid))
-    tail = '' if what == 'hang' else ':' + what
+    # a mismatch of the collective sequences shows either as a hang or, when the unmatched operation does not block
+    # (zero-length write_at_all), as differing sequences: the same finding, the same key
+    tail = '' if what in ('hang', 'mismatch-without-hang') else ':' + what
     if c.api in ('put_varn', 'get_varn') and len(set(varn_path(x) for x in c.cls)) > 1:
         other = 'others-pass-zero-requests-for-the-same-variable' if all(x[0] == 'S' for x in c.cls) else 'others-address-a-non-scalar-variable'
         return '%s:scalar-variable-on-some-ranks:%s%s%s' % (api, other, cfgs, tail)
@@ -606,6 +608,8 @@ def key_of(c, absl, what):
         vk = sorted(set(l.split(':')[0] for l in valid))
         bw = sorted(set((l.split(':')[1] if l.split(':')[0] in ('fixed-var', 'record-var', 'scalar-var') else l.split(':')[0]) for l in bad))
         if len(vk) > 1:
+            if 'record-var' in vk:       # what matters: a record variable on some ranks, another kind elsewhere
+                vk = sorted(['record-var', sorted(x for x in vk if x != 'record-var')[0]])
             s = 'different-variable-kinds:' + '+'.join(vk)
         else:
             s = ('+'.join(vk) or 'no-valid-rank')
@@ -720,13 +724,6 @@ def evaluate(c, obs, model, E, sites, crash_sig):
 
 
 # =============================================================================== case generation
-def product_cases(api, np, fixed, pools):
-    out = []
-    for combo in itertools.product(*pools):
-        out.append(Case(api, combo, **fixed))
-    return out
-
-
 def gen_cases(ctx):
     """every collective API x assignments of classes to ranks.  quick: exhaustive over ordered pairs (2 ranks) for one API of each
     family and the single-deviation assignments for the others, 3 ranks single/double deviations, sampled 4 ranks;
